@@ -504,7 +504,7 @@ void op_reset(Slot<T>& s, uint64_t mode) {
     G->labels.insert("reset-of-deserialized-warmup");
   }
   Obs o = observe(s.sk);
-  if (s.m.deser_warm && o.hr_ok && o.cur < initial_alloc(o.k, static_cast<uint32_t>(o.lg_rf))) {
+  if (o.hr_ok && o.cur < initial_alloc(o.k, static_cast<uint32_t>(o.lg_rf))) {  // only objects descending from a warm-up image (sketch or union gadget)
     G->labels.insert("reset-shrunk-alloc");
     // known defect: reset() keeps the short arrays but records the larger initial size; later updates write past the end.
     // When the key is listed the case stops here; otherwise it goes on and the sanitizer reports the overflow itself.
